@@ -7,3 +7,4 @@ for s in $(seq 101 $((100+n))); do for p in $props; do
   echo "seed=$s $p exit=$code $(echo "$out" | grep '^property=' | sed 's/.*worlds=/worlds=/; s/ evals=.* violations=/ violations=/')"
   [ $code -ne 0 ] && echo "$out" | grep -A2 "violation class\|HARNESS" | cut -c1-300 | head -8
 done; done
+exit 0
